@@ -121,10 +121,12 @@ theorem pslSplit_spec (lines : List Str) (hn : Str) :
 theorem join_ne_nil_of_two (a b : Str) (r : List Str) : join SuffixTrie.dot (a :: b :: r) ≠ [] := by
   simp [join, SuffixTrie.dot]
 
-/-- C08's re-join clause for `pslSplit`, on a hostname without leading dot: the two parts re-join
-to the lower-cased hostname without trailing dots -/
-theorem pslSplit_rejoin (lines : List Str) (hn d s : Str) (hhead : (lower hn).head? ≠ some '.')
-    (h : pslSplit lines hn = some (d, s)) : rejoin d s = C08.hostStr hn := by
+/-- **C08's re-join clause for `pslSplit`, every hostname**: the host is a bare suffix (first part
+empty, second part the lower-cased hostname without its trailing dots), or `first + "." + second`
+is that string (the first part is empty there for a lone leading dot: `.co.uk` → `("", "co.uk")`) -/
+theorem pslSplit_rejoins (lines : List Str) (hn d s : Str)
+    (h : pslSplit lines hn = some (d, s)) :
+    (d = [] ∧ s = C08.hostStr hn) ∨ d ++ '.' :: s = C08.hostStr hn := by
   rw [pslSplit_spec] at h
   cases hl : C08.hostLen lines hn with
   | none => simp [hl] at h
@@ -134,10 +136,10 @@ theorem pslSplit_rejoin (lines : List Str) (hn d s : Str) (hhead : (lower hn).he
     simp only [hl, Option.map_some, Option.some.injEq, Prod.mk.injEq] at h
     obtain ⟨hd, hsx⟩ := h
     by_cases he : (SuffixTrie.hostParts hn).length = n
-    · have hd0 : d = [] := by rw [← hd]; simp [he, join]
-      have hs0 : s = C08.hostStr hn := by rw [← hsx]; simp [he, C08.join_hostParts]
-      simp [rejoin, hd0, hs0]
-    · have hA : (SuffixTrie.hostParts hn).take ((SuffixTrie.hostParts hn).length - n) ≠ [] := by
+    · left
+      exact ⟨by rw [← hd]; simp [he, join], by rw [← hsx]; simp [he, C08.join_hostParts]⟩
+    · right
+      have hA : (SuffixTrie.hostParts hn).take ((SuffixTrie.hostParts hn).length - n) ≠ [] := by
         intro e
         have := congrArg List.length e
         simp only [List.length_take, List.length_nil] at this
@@ -149,27 +151,13 @@ theorem pslSplit_rejoin (lines : List Str) (hn d s : Str) (hhead : (lower hn).he
         omega
       have hj := join_append SuffixTrie.dot _ _ hA hB
       rw [List.take_append_drop, C08.join_hostParts, hd, hsx] at hj
-      -- the domain part is not empty: the hostname would start with a dot
-      have hdne : d ≠ [] := by
-        intro e
-        rw [e] at hj
-        have hh : (C08.hostStr hn).head? = some '.' := by rw [hj]; simp [SuffixTrie.dot]
-        -- `hostStr hn` is a prefix of `lower hn`
-        obtain ⟨suf, hsuf⟩ : ∃ suf, lower hn = rstripChars (lower hn) ['.'] ++ suf := by
-          have : rstripChars (lower hn) ['.'] <+: lower hn := by
-            unfold rstripChars
-            have := (List.dropWhile_suffix (fun x => ['.'].contains x) (l := (lower hn).reverse))
-            simpa using List.reverse_prefix.2 this
-          obtain ⟨suf, e⟩ := this
-          exact ⟨suf, e.symm⟩
-        apply hhead
-        rw [hsuf]
-        unfold C08.hostStr at hh
-        cases hr : rstripChars (lower hn) ['.'] with
-        | nil => rw [hr] at hh; cases hh
-        | cons c r => rw [hr] at hh; simpa using hh
-      simp only [rejoin, hdne, if_false]
       rw [hj]; simp [SuffixTrie.dot]
+
+/-- **C08's clause is a theorem for the model of suffix_trie.py**: `SplitRejoins (pslSplit lines)`
+at every netloc — hosts with trailing dots or a leading dot included -/
+theorem splitRejoins_psl (lines : List Str) (n : Str) : SplitRejoins (pslSplit lines) n := by
+  intro d s h
+  exact pslSplit_rejoins lines _ d s h
 
 /-- `dnsName` unpacked -/
 theorem dnsName_iff {h : Str} : dnsName h = true ↔
@@ -187,22 +175,14 @@ theorem dnsName_iff {h : Str} : dnsName h = true ↔
     have hne : c ≠ '%' := fun e => hpc (e ▸ hc)
     simp [this.1, this.2.1, this.2.2, hne]
 
-/-- **C08's clause for the model of suffix_trie.py** — the hypothesis `SplitLaw` of the C12 / C13
-theorems holds for `pslSplit lines` on every DNS name: nothing is assumed any more -/
-theorem splitLaw_psl (lines : List Str) (n : Str) (hwf : wfNetloc n = true)
-    (hd : dnsName (specHost n) = true) : SplitLaw (pslSplit lines) n := by
-  obtain ⟨hp, hpc, hhead, hlast⟩ := dnsName_iff.1 hd
-  intro d s hds
-  rw [hostSplit_plain _ hp] at hds
-  unfold splitSuffixParsed at hds
-  simp only at hds
-  split at hds
-  · cases hds
-  · split at hds
-    · cases hds
-    · rw [pyHostname_plain hwf hp hpc] at hds
-      have := pslSplit_rejoin lines _ d s (by rw [lower_idem]; exact head_lower hhead) hds
-      rw [this, C08.hostStr, lower_idem, rstrip_dot_id (getLast_lower hlast)]
+/-- **the hypothesis `SplitLaw` of the C12 / C13 theorems holds for the model of suffix_trie.py on
+EVERY netloc of the grammar** — DNS names, hosts with `%`, with trailing dots, with a leading dot,
+bracketed literals (never suffix-processed): the suffix-aware stems spell the lower-cased host,
+empty labels included (FX-C12-EMPTYLABELS; before the fix the clause failed on `a.co.uk.` and
+`.co.uk`).  Nothing is assumed any more -/
+theorem splitLaw_psl (lines : List Str) (n : Str) (hwf : wfNetloc n = true) :
+    SplitLaw (pslSplit lines) n :=
+  C12.splitRejoins_of_c08 (pslSplit lines) n hwf (splitRejoins_psl lines n)
 
 /-! ## what else holds of `pslSplit` without any hypothesis -/
 
@@ -311,19 +291,6 @@ theorem splitCaseInv_psl (lines : List Str) (n : Str) : SplitCaseInv (pslSplit l
   intro h' e _ _
   exact pslSplit_lower_congr lines e
 
-/-- **C08's re-join clause for the model of suffix_trie.py, `%` allowed**: `SplitLaw` holds on
-every plain host (no `:[]`) that neither starts nor ends with a dot (generalises `splitLaw_psl`:
-`dnsName` also excludes `%`) -/
-theorem splitLaw_psl_plain (lines : List Str) (n : Str) (hwf : wfNetloc n = true)
-    (hp : Plain (specHost n)) (hhead : (specHost n).head? ≠ some '.')
-    (hlast : (specHost n).getLast? ≠ some '.') : SplitLaw (pslSplit lines) n := by
-  intro d s hds
-  rw [hostSplit_plain _ hp] at hds
-  have h := splitSuffixParsed_some hds
-  have hl := lower_pyHostname_plain hwf hp
-  have := pslSplit_rejoin lines _ d s (by rw [hl]; exact head_lower hhead) h
-  rw [this, C08.hostStr, hl, rstrip_dot_id (getLast_lower hlast)]
-
 /-! ## the public suffix of a subdomain -/
 
 /-- **the public suffix of a subdomain that does not swallow the parent domain is the parent's**
@@ -418,6 +385,12 @@ theorem sameSuffixSplit_of_outside (lines : List Str) (nu nv : Str)
 /-! ## the forward law -/
 
 /-- `.hostname` of a well-formed netloc depends on the host only -/
+theorem pyHostname_congr {nu nv : Str} (hwu : wfNetloc nu = true)
+    (hwv : wfNetloc nv = true) (e : specHost nu = specHost nv) : pyHostname nu = pyHostname nv := by
+  unfold pyHostname
+  rw [pyHostinfoHost_wf hwu, pyHostinfoHost_wf hwv, e]
+
+/-- … hence the public-suffix split too -/
 theorem hostSplit_congr (sp : Str → Option (Str × Str)) {nu nv : Str} (hwu : wfNetloc nu = true)
     (hwv : wfNetloc nv = true) (e : specHost nu = specHost nv) :
     hostSplit sp nu = hostSplit sp nv := by
@@ -444,6 +417,7 @@ theorem keyG_prefix_of_under_sub (sp : Str → Option (Str × Str)) (segs : Str 
     simp only [id] at e
     simp only [hostStems_spec, if_true]
     rw [hostSplit_congr sp hwu hwv e, e]
+    simp only [lowerHostname, pyHostname_congr hwu hwv e]
   · intro hs
     simp only [id] at hs
     obtain ⟨l1, l2, hsu, hsv, hsame⟩ := hsub hs
@@ -454,10 +428,16 @@ theorem keyG_prefix_of_under_sub (sp : Str → Option (Str × Str)) (segs : Str 
       simp only [hostStemsOfSplit]
       rw [normalHostStems_of_labelHost l1, normalHostStems_of_labelHost l2, hpre, labelStems_sub]
       exact List.prefix_append _ _
-    · rw [a, b]
-      apply splitStems_prefix (pre := lower pre)
-      rw [hsu du s a, hsv dv s b, hpre, lower_append, lower_cons]
-      simp [lowerChar]
+    · have lu := lowerHostname_of_split sp hwu a
+      have lv := lowerHostname_of_split sp hwv b
+      have elv : lower (specHost v.netloc) = lower pre ++ '.' :: lower (specHost u.netloc) := by
+        rw [hpre, lower_append, lower_cons]; simp [lowerChar]
+      have h1 := hsu du s a
+      have h2 := hsv dv s b
+      rw [lu] at h1
+      rw [lv, elv] at h2
+      rw [a, b, lu, lv, elv]
+      exact splitStems_prefix _ _ h1 h2
 
 /-- **forward, `suffix_aware = True`, the hypotheses only where they are needed**: when the two
 hosts are equal nothing is asked of `split_suffix`; when `v`'s host is a strict subdomain, the
@@ -499,7 +479,7 @@ theorem sub_hyps_psl (lines : List Str) (u v : Parts)
     rw [e] at this
     simp at this
     omega
-  · refine ⟨l1, l2, splitLaw_psl lines _ hwu d1, splitLaw_psl lines _ hwv d2, ?_⟩
+  · refine ⟨l1, l2, splitLaw_psl lines _ hwu, splitLaw_psl lines _ hwv, ?_⟩
     rcases hreg with ho | hsame
     · exact sameSuffixSplit_of_outside lines _ _ hwu hwv d1 d2 hs ho
     · exact hsame
@@ -677,21 +657,55 @@ theorem kf_inside_suffix_psl :
           cleanTrailingPath (lruStems (pslSplit demoLines) true (urlOf "city.kawasaki.jp")))) := by
   decide +kernel
 
-/-- **the suffix-aware converse really needs C08's clause** (`under_of_stems_prefix_sa`, hypotheses
-`SplitLaw`): suffix_trie.py strips trailing dots, so `http://a.co.uk.` has the suffix-aware stems
-of `http://a.co.uk` — a prefix of the stems of `http://a.co.uk/x`, which does not lie under it (the
-hosts differ by the root label).  The same loss as KF-C12-2; trailing-dot hosts are outside the
-universe of C13 -/
-theorem converse_needs_splitLaw :
-    cleanTrailingPath (lruStems (pslSplit demoLines) true (urlOf "a.co.uk.")) <+:
+/-- **converse, `suffix_aware = True`, suffix_trie.py inside — nothing assumed about the split**:
+`under_of_stems_prefix_sa` with its two hypotheses `SplitLaw` discharged by `splitLaw_psl`, which
+holds on every netloc of the grammar since FX-C12-EMPTYLABELS (hosts with trailing dots or a leading
+dot included; before the fix `http://a.co.uk.` had the stems of `http://a.co.uk` and the converse
+failed there).  Hosts compared lower-cased, as the mode lower-cases them -/
+theorem under_of_stems_prefix_psl (lines : List Str) (u v : Parts)
+    (hwu : wfNetloc u.netloc = true) (hwv : wfNetloc v.netloc = true)
+    (hnu : noUserinfo u.netloc = true)
+    (h : cleanTrailingPath (lruStems (pslSplit lines) true u) <+:
+      cleanTrailingPath (lruStems (pslSplit lines) true v)) :
+    UnderBy lower u v :=
+  under_of_stems_prefix_sa (pslSplit lines) u v hwu hwv hnu (splitLaw_psl lines _ hwu)
+    (splitLaw_psl lines _ hwv) h
+
+/-- the same on URL strings (`under_of_stems_prefix_string` without its `SplitLaw` hypotheses) -/
+theorem under_of_stems_prefix_psl_string (lines : List Str) (u v : Str) (su sv : List Str)
+    (hsu : lruStemsUrl (pslSplit lines) true u = some su)
+    (hsv : lruStemsUrl (pslSplit lines) true v = some sv)
+    (hpre : cleanTrailingPath su <+: cleanTrailingPath sv) :
+    ∃ pu pv, urlParts u = some pu ∧ urlParts v = some pv ∧
+      (wfNetloc pu.netloc = true → wfNetloc pv.netloc = true → noUserinfo pu.netloc = true →
+        UnderBy lower pu pv) := by
+  obtain ⟨pu, pv, hu, hv, h⟩ := under_of_stems_prefix_string (pslSplit lines) true u v su sv hsu hsv hpre
+  exact ⟨pu, pv, hu, hv, fun hwu hwv hnu =>
+    h hwu hwv hnu (fun _ => ⟨splitLaw_psl lines _ hwu, splitLaw_psl lines _ hwv⟩)⟩
+
+/-- **the former witness of the failing converse round-trips now** (FX-C12-EMPTYLABELS; it was
+`converse_needs_splitLaw`, the loss KF-C12-2): the root label of `http://a.co.uk.` is a stem of its
+own, so its suffix-aware stems are no longer those of `http://a.co.uk` — not a prefix of the stems
+of `http://a.co.uk/x` (which does not lie under it), a prefix of those of `http://a.co.uk./x` and of
+the subdomain `http://b.a.co.uk.` (which do); `SplitLaw` holds at `a.co.uk.` and at `.co.uk` -/
+theorem converse_former_witness :
+    cleanTrailingPath (lruStems (pslSplit demoLines) true (urlOf "a.co.uk.")) =
+      ["s:http", "h:", "h:co.uk", "h:a"].map String.toList ∧
+    ¬ (cleanTrailingPath (lruStems (pslSplit demoLines) true (urlOf "a.co.uk.")) <+:
       cleanTrailingPath (lruStems (pslSplit demoLines) true
-        { urlOf "a.co.uk" with path := "/x".toList }) ∧
+        { urlOf "a.co.uk" with path := "/x".toList })) ∧
     ¬ UnderBy lower (urlOf "a.co.uk.") { urlOf "a.co.uk" with path := "/x".toList } ∧
-    ¬ SplitLaw (pslSplit demoLines) (urlOf "a.co.uk.").netloc := by
-  refine ⟨by decide +kernel, by decide +kernel, ?_⟩
-  intro h
-  have := h "a".toList "co.uk".toList (by decide +kernel)
-  revert this
-  decide +kernel
+    (cleanTrailingPath (lruStems (pslSplit demoLines) true (urlOf "a.co.uk.")) <+:
+      cleanTrailingPath (lruStems (pslSplit demoLines) true
+        { urlOf "a.co.uk." with path := "/x".toList })) ∧
+    UnderBy lower (urlOf "a.co.uk.") { urlOf "a.co.uk." with path := "/x".toList } ∧
+    (cleanTrailingPath (lruStems (pslSplit demoLines) true (urlOf "a.co.uk.")) <+:
+      cleanTrailingPath (lruStems (pslSplit demoLines) true (urlOf "b.a.co.uk."))) ∧
+    Under (urlOf "a.co.uk.") (urlOf "b.a.co.uk.") ∧
+    SplitLaw (pslSplit demoLines) (urlOf "a.co.uk.").netloc ∧
+    SplitLaw (pslSplit demoLines) (urlOf ".co.uk").netloc := by
+  refine ⟨by decide +kernel, by decide +kernel, by decide +kernel, by decide +kernel,
+    by decide +kernel, by decide +kernel, by decide +kernel,
+    splitLaw_psl demoLines _ (by decide +kernel), splitLaw_psl demoLines _ (by decide +kernel)⟩
 
 end Ural.Props.C13
